@@ -80,6 +80,9 @@ def main():
             if broken and not ctx.violations and hasattr(mod, "search"):
                 mod.search(ctx, model)
         finally:
+            if getattr(model, "resyncs", None):
+                ctx.extra["model_pipe_resyncs"] = model.resyncs[:10]
+                print("note: %d interrupted model request(s) were resynchronised, first: %s" % (len(model.resyncs), model.resyncs[0]))
             model.close()
     except Exception:
         traceback.print_exc()
